@@ -450,7 +450,8 @@ PLAN = {
     ),
     "C15": dict(
         level="other",
-        functions=[AE + "_datetime_to_timestamp", AE + "_convert_to_ev", B + "batt_cap_fn.<locals>._get_init_cap", B + "batt_cap_fn"],
+        functions=[AE + "_datetime_to_timestamp", AE + "_convert_to_ev", B + "batt_cap_fn.<locals>._get_init_cap", B + "batt_cap_fn",
+                   "acnportal.acnsim.events.stochastic_events.StochasticEvents._convert_ev_matrix"],
         bounded=[dict(module="rt.fnmon", fn="events_monitor", label="session documents, sample matrices and the capacity fit against the property's formulas")],
         text="PROVED (all documents, starts, periods, max_len, force_feasible; no bound): _datetime_to_timestamp returns floor(unix time / (60 x period)) "
              "(and the ceiling with round_up); _convert_to_ev with the default battery: arrival / departure = period index of connection / "
@@ -458,12 +459,16 @@ PLAN = {
              "max power x stay x period/60, ids copied, battery capacity = request with empty initial charge (free capacity covers the request); "
              "batt_cap_fn on its closed-form branch (start at or beyond the transition SoC): the capacity is a listed size >= the request and "
              "F(s0, stay) - s0 = request / capacity, i.e. charging at 32 A for the whole stay delivers exactly the request, initial charge in kWh "
-             "within the free capacity. BOUNDED: the bisection branch of the fit, custom capacity functions / battery classes, get_evs / "
-             "generate_events through a stubbed client, StochasticEvents._convert_ev_matrix (numpy rows), time zones.",
+             "within the free capacity; StochasticEvents._convert_ev_matrix with the default battery (loop invariant with ghost index maps sample row <-> "
+             "session): every session built comes from a valid sample row (arrival >= 0, stay > 0, energy > 0), in sample order, and every valid row has "
+             "its session; arrival = floor(arrival time x periods per hour), departure = floor((arrival time + stay capped at max_len) x periods per "
+             "hour), requested energy = the sample's energy (capped at max power x capped stay under force_feasible), nothing delivered yet, the "
+             "battery holds exactly the request with empty initial charge. BOUNDED: the bisection branch of the fit, custom capacity functions / "
+             "battery classes, get_evs / generate_events through a stubbed client, time zones.",
         note="datetime.timestamp() is a ghost real (A-LIB); exp uninterpreted with instantiated axioms; binsearch (higher-order, recursive) is an "
              "assumed frame-only contract, so the search branch of the fit is not proved; zero-length stays are excluded by precondition (the "
              "Battery constructor would be handed capacity 0)",
-        explanation="proved: timestamp conversion, document conversion (default battery), closed-form branch of the capacity fit; bounded: the rest (rt.fnmon.events_monitor)",
+        explanation="proved: timestamp conversion, document conversion and sample-matrix conversion (default battery), closed-form branch of the capacity fit; bounded: the rest (rt.fnmon.events_monitor)",
         technique="contract-based deductive verification (pyvc/z3) of the scalar converters and the closed-form fit + run-time contract monitor (bounded) for the remaining paths",
         trusted=[EXP_AXIOMS, "datetime.timestamp() returns the ghost real theta of the datetime object; pytz conversions are not modelled"],
     ),
